@@ -20,11 +20,21 @@ func coordGen(world string) *rapid.Generator[float64] {
 		return gen.Mix(gen.SmallInt(6), gen.SmallInt(6), gen.SmallInt(6), gen.Half(6), gen.Half(6), rapid.SampledFrom([]float64{0, math.Copysign(0, -1)}))
 	case "lonlat":
 		// quantised to 2^-20 so that no coordinate sits in underflow territory
-		raw := gen.Mix(gen.SmallInt(170), rapid.Float64Range(-180, 180), rapid.Float64Range(-10, 10), rapid.Float64Range(-90, 90))
-		return rapid.Custom(func(t *rapid.T) float64 { return quant(raw.Draw(t, "raw")) })
+		raw := gen.Mix(gen.SmallInt(170), rapid.Float64Range(-180, 180), rapid.Float64Range(-10, 10), rapid.Float64Range(-90, 90),
+			gen.SmallInt(170), rapid.Float64Range(-180, 180), rapid.Float64Range(-10, 10), rapid.Float64Range(-90, 90))
+		// the edges of the tile world, exactly: lon +-180, the mercator clamp latitude and its neighbours, the poles
+		edges := rapid.SampledFrom(worldEdges)
+		return rapid.Custom(func(t *rapid.T) float64 {
+			if rapid.IntRange(0, 15).Draw(t, "edge") == 7 {
+				return edges.Draw(t, "edgev")
+			}
+			return quant(raw.Draw(t, "raw"))
+		})
 	}
 	return gen.FiniteCoord()
 }
+
+var worldEdges = []float64{-180, 180, 85.0511287798066, -85.0511287798066, 85.0511, -85.0511, 90, -90, 0}
 
 func quant(v float64) float64 { return math.Round(v*1048576) / 1048576 }
 
